@@ -318,6 +318,9 @@ def simplify_locals(fn: ast.FunctionDef) -> ast.FunctionDef:
                             isinstance(v.args[0], ast.Call) and \
                             ast.unparse(v.args[0].func) == 'len' and len(v.args[0].args) == 1:
                         subst = 'choice'
+                if subst is None and len(uses) == 1 and _pure_scalar(v) and \
+                        all(stores.get(n, 0) <= 1 for n in _names(v)):
+                    subst = 'all'                # one-use name of a pure scalar expression
                 if subst is None:
                     continue
                 if subst == 'choice':
@@ -361,6 +364,27 @@ def simplify_locals(fn: ast.FunctionDef) -> ast.FunctionDef:
     return fn
 
 
+_PURE_CALLS = {'len', 'isinstance', 'min', 'max', 'abs', 'bool', 'int'}
+
+
+def _pure_scalar(v: ast.AST) -> bool:
+    """comparisons / boolean / arithmetic combinations of names, attributes, constants and
+    constructor calls: no element reads, no draws, nothing that a later write could change"""
+    if not isinstance(v, (ast.Compare, ast.BoolOp, ast.UnaryOp, ast.BinOp)):
+        return False
+    for n in ast.walk(v):
+        if isinstance(n, (ast.Subscript, ast.Lambda, ast.Await, ast.Yield, ast.NamedExpr,
+                          ast.ListComp, ast.SetComp, ast.DictComp, ast.GeneratorExp)):
+            return False
+        if isinstance(n, ast.Call):
+            f = ast.unparse(n.func)
+            if not (f.split('.')[-1][:1].isupper() or f in _PURE_CALLS):
+                return False
+        if isinstance(n, ast.Name) and n.id == 'rng':
+            return False
+    return True
+
+
 def _subst_loads(fn: ast.AST, name: str, value: ast.AST) -> None:
     class S(ast.NodeTransformer):
         def visit_Name(self, n: ast.Name):
@@ -368,3 +392,33 @@ def _subst_loads(fn: ast.AST, name: str, value: ast.AST) -> None:
                 return copy.deepcopy(value)
             return n
     S().visit(fn)
+
+
+_NEG = {ast.Lt: ast.GtE, ast.GtE: ast.Lt, ast.Gt: ast.LtE, ast.LtE: ast.Gt, ast.Eq: ast.NotEq,
+        ast.NotEq: ast.Eq, ast.Is: ast.IsNot, ast.IsNot: ast.Is, ast.In: ast.NotIn,
+        ast.NotIn: ast.In}
+
+
+def nnf(e: ast.AST, neg: bool = False) -> ast.AST:
+    """negation normal form of a condition: `not` pushed through and/or and into single
+    comparisons (valid for the total orders and equalities compared here)"""
+    if isinstance(e, ast.UnaryOp) and isinstance(e.op, ast.Not):
+        return nnf(e.operand, not neg)
+    if isinstance(e, ast.BoolOp):
+        op = e.op
+        if neg:
+            op = ast.Or() if isinstance(e.op, ast.And) else ast.And()
+        vals: List[ast.AST] = []
+        for v in e.values:
+            x = nnf(v, neg)
+            if isinstance(x, ast.BoolOp) and type(x.op) is type(op):
+                vals.extend(x.values)
+            else:
+                vals.append(x)
+        return ast.copy_location(ast.BoolOp(op, vals), e)
+    if not neg:
+        return e
+    if isinstance(e, ast.Compare) and len(e.ops) == 1 and type(e.ops[0]) in _NEG:
+        return ast.copy_location(
+            ast.Compare(e.left, [_NEG[type(e.ops[0])]()], e.comparators), e)
+    return ast.copy_location(ast.UnaryOp(ast.Not(), e), e)
